@@ -34,3 +34,7 @@ THREADS2 = dict(name="threads.check2", src="rsm/threads2.c", unwind=6, unwindset
                 units=["lib/lha_reader.c:lha_reader_check,open_decoder,do_decode,lha_reader_read", "lib/lha_decoder.c:lha_decoder_read,lha_decoder_get_length,lha_decoder_get_crc", "lib/crc16.c"], timeout=900, mem_gb=8,
                 bounds="two threads, one reader + decoder each, one member of two bytes each; all interleavings",
                 stubs=["method read(): two identifying bytes per decoder, then end", "lha_basic_reader_decode: hands each reader its own pre-built decoder object"])
+
+STREAM = dict(name="stream.life", src="rsm/stream.c", unwind=4, leak=True, malloc_may_fail=True, units=["lib/lha_input_stream.c:lha_input_stream_from,lha_input_stream_from_FILE,lha_input_stream_new,lha_input_stream_free,file_source_close"],
+              timeout=120, mem_gb=4, bounds="three ways of creating a stream, fopen and calloc each succeeding or failing, close callback present or not",
+              stubs=["fopen/fclose: handle counter", "calloc: may return NULL (CBMC), --memory-leak-check"])
